@@ -53,6 +53,82 @@ def own_row_info(ctx, M, body, ipterm):
     return (site, col, "")
 
 
+def _r6_identity(ctx):
+    """two different clients must never be keyed alike: the identity handed to the pool is the client-identifier option exactly as
+    the client sent it, or the chaddr when there is none — no stripping, truncating or rewriting of either"""
+    P = ctx.P
+    fns = [f for f in P.bodies if f.endswith("dhcppkt::Dhcp::get_client_id")]
+    ctx.floor("R6", "client identity function", len(fns), 1)
+    for f in fns:
+        b = P.bodies[f]
+        ctx.saw(b)
+        T = terms(P, b)
+        rets = []
+        for bb, idx, st in b.stmts():
+            if st["p"] == (0,) and "rv" in st:
+                rets.append(norm(T.rvalue(st["rv"], bb, idx)))
+        for bb, tm in b.calls():
+            if tuple(tm["dest"]) == (0,):
+                rets.append(norm(T.call_term(tm, bb)))
+
+        def verbatim(t, depth=0):
+            t = norm(t)
+            if depth > 8:
+                return False
+            if t[0] == "phi":
+                return all(verbatim(x, depth + 1) for x in t[1])
+            if t[0] == "field" and t[2] == "chaddr" and norm(t[1]) == ("param", 1):
+                return True
+            if t[0] == "payload" and t[1] in ("Some", "?"):
+                return verbatim(t[2], depth + 1) if norm(t[2])[0] != "call" else str(norm(t[2])[1]).endswith("DhcpOptions::get_clientid")
+            if t[0] == "call" and str(t[1]).endswith("DhcpOptions::get_clientid"):
+                return True
+            if t[0] == "call" and str(t[1]).rsplit("::", 1)[-1] in ("unwrap_or_else", "unwrap_or", "unwrap_or_default"):
+                first = norm(t[2][0])
+                if not (first[0] == "call" and str(first[1]).endswith("DhcpOptions::get_clientid")):
+                    return False
+                if len(t[2]) == 1:
+                    return True
+                alt = norm(t[2][1])
+                cid = closure_def_of_term(alt)
+                if cid and cid in P.bodies:
+                    cb = P.bodies[cid]
+                    Tc = terms(P, cb)
+                    outs = [norm(Tc.call_term(tm2, b2)) for b2, tm2 in cb.calls() if tuple(tm2["dest"]) == (0,)] + \
+                           [norm(Tc.rvalue(s2["rv"], b2, i2)) for b2, i2, s2 in cb.stmts() if s2["p"] == (0,) and "rv" in s2]
+                    return bool(outs) and all(any(y[0] == "field" and y[2] == "chaddr" for y in subterms(lift(P, cb, o)[1])) and not any(
+                        y[0] == "call" and INDEXY.search(str(y[1])) for y in subterms(o)) for o in outs)
+                return verbatim(alt, depth + 1)
+            return False
+        ctx.check(bool(rets) and all(verbatim(r) for r in rets), "R6", "client-identity=client-id-option-verbatim-else-chaddr", ctx.where(b),
+                  "get_client_id must return options.get_clientid() unchanged, or chaddr when absent (returns %s): any normalisation makes "
+                  "distinct clients share a pool key" % [show(r)[:80] for r in rets][:3])
+
+
+import re as _re
+INDEXY = _re.compile(r"(::index$)|(::get$)|(::split)|(::truncate)|(::drain)")
+
+
+def _r7_uniqueness(ctx, M):
+    """INSERT OR REPLACE deletes every row that conflicts on *any* uniqueness constraint: the lease table must have none besides its
+    primary key (a UNIQUE index on clientid would make a client's second lease silently delete its first)"""
+    n = 0
+    for s in M.sites:
+        st = s.stmt
+        if not st:
+            continue
+        if st["kind"] == "create_index" and st.get("table") == "leases":
+            n += 1
+            ctx.check(not st.get("unique"), "R7", "no-second-uniqueness-constraint:index:%s" % ",".join(st.get("columns", [])), ctx.where(s.body, s.term["sp"]),
+                      "a UNIQUE index on leases(%s): the allocator's INSERT OR REPLACE then also deletes the rows that collide on it" % ",".join(st.get("columns", [])))
+        if st["kind"] == "create" and st.get("table") == "leases":
+            n += 1
+            txt = st.get("text", "").upper()
+            ctx.check(txt.count("UNIQUE") == 0, "R7", "no-second-uniqueness-constraint:table", ctx.where(s.body, s.term["sp"]),
+                      "the lease table declares a UNIQUE constraint besides its primary key")
+    ctx.floor("R7", "schema statements for the lease table", n, 1)
+
+
 def run(ctx):
     P = ctx.P
     cg = callgraph(P)
@@ -65,6 +141,10 @@ def run(ctx):
                   ctx.where(s.body, s.term["sp"]), s.err or (s.stmt["text"][:100] if s.stmt else ""))
     ctx.floor("R0", "SQL statements", len(M.sites), 12)
 
+    # ---- R6: who counts as one client: the pool key is the client-identifier option as sent, else the hardware address
+    _r6_identity(ctx)
+    # ---- R7: the address is the only uniqueness constraint of the lease table
+    _r7_uniqueness(ctx, M)
     # ---- R1: who may write `leases`
     lsql = M.lease_sql()
     inserts = [s for s in lsql if s.stmt["kind"] == "insert"]
